@@ -117,6 +117,8 @@ func symsOf(p *types.Package) *pkgSyms {
 					m := u.ExplicitMethod(i)
 					s.Funcs[name+"."+m.Name()] = "I " + sigString(m.Type().(*types.Signature), q)
 				}
+			case *types.Signature:
+				s.Types[name] = []string{"=" + sigString(u, q)} // parameter names are not part of the type's identity
 			default:
 				s.Types[name] = []string{"=" + types.TypeString(u, q)}
 			}
@@ -1200,31 +1202,62 @@ func normaliseSkeletonNames(c *Ctx) {
 		c.stage = nil
 		saved := map[*ast.BasicLit]string{}
 		for _, f := range c.Pkg("Builder").Syntax {
-			ast.Inspect(f, func(n ast.Node) bool {
-				lit, ok := n.(*ast.BasicLit)
-				if !ok || lit.Kind != token.STRING {
-					return true
-				}
-				// on the string's value, not on its source form (`"\tname"` would hide the word boundary)
-				raw := strings.HasPrefix(lit.Value, "`")
-				val, err := strconv.Unquote(lit.Value)
-				if err != nil {
-					return true
-				}
-				nv := val
-				for nw, old := range ren {
-					nv = regexp.MustCompile(`\b`+regexp.QuoteMeta(nw)+`\b`).ReplaceAllString(nv, old)
-				}
-				if nv != val {
-					saved[lit] = lit.Value
-					if raw && !strings.Contains(nv, "`") {
-						lit.Value = "`" + nv + "`"
-					} else {
-						lit.Value = strconv.Quote(nv)
+			// the TypeScript generator's text is another program with identifiers of its own (`state`, `action`, …):
+			// literals inside TsBuilder's methods / functions named …Ts…, and literals that are TypeScript by their
+			// looks, are left alone
+			tsDecl := map[ast.Node]bool{}
+			for _, d := range f.Decls {
+				switch x := d.(type) {
+				case *ast.FuncDecl:
+					rn, _ := recvTypeName(x)
+					if strings.HasPrefix(rn, "Ts") || strings.Contains(x.Name.Name, "Ts") {
+						tsDecl[x] = true
+					}
+				case *ast.GenDecl:
+					for _, sp := range x.Specs {
+						if vs, ok := sp.(*ast.ValueSpec); ok {
+							for _, nm := range vs.Names {
+								if strings.HasPrefix(strings.ToLower(nm.Name), "ts") {
+									tsDecl[x] = true
+								}
+							}
+						}
 					}
 				}
-				return true
-			})
+			}
+			for _, d := range f.Decls {
+				if tsDecl[d] {
+					continue
+				}
+				ast.Inspect(d, func(n ast.Node) bool {
+					lit, ok := n.(*ast.BasicLit)
+					if !ok || lit.Kind != token.STRING {
+						return true
+					}
+					if v := lit.Value; strings.Contains(v, ":number") || strings.Contains(v, ": number") || strings.Contains(v, ":string") || strings.Contains(v, "console.") || strings.Contains(v, "let ") {
+						return true
+					}
+					// on the string's value, not on its source form (`"\tname"` would hide the word boundary)
+					raw := strings.HasPrefix(lit.Value, "`")
+					val, err := strconv.Unquote(lit.Value)
+					if err != nil {
+						return true
+					}
+					nv := val
+					for nw, old := range ren {
+						nv = regexp.MustCompile(`\b`+regexp.QuoteMeta(nw)+`\b`).ReplaceAllString(nv, old)
+					}
+					if nv != val {
+						saved[lit] = lit.Value
+						if raw && !strings.Contains(nv, "`") {
+							lit.Value = "`" + nv + "`"
+						} else {
+							lit.Value = strconv.Quote(nv)
+						}
+					}
+					return true
+				})
+			}
 		}
 		if err := recheckAll(c); err != nil {
 			for lit, v := range saved {
